@@ -36,6 +36,8 @@ pub enum Defect {
     FooterNul,
     FooterColon,
     FooterGarbage { text: Vec<u8> },
+    /// v2+: the 32-bit block's header carries inconsistent counts while its body is sized accordingly (0 isut, 1 isstd, 2 typecnt 0, 3 charcnt 0)
+    DecoyInconsistent { kind: u8 },
     /// arbitrary byte overwrite
     Byte { at: u32, value: u8 },
 }
@@ -153,7 +155,7 @@ fn build_block(z: &MZone, ent: &[u32], salt: usize) -> Option<Block> {
 /// File model of a zone; None when the zone cannot be represented (e.g. v1 with 64-bit times, unspellable trailer).
 pub fn file_of(c: &FileCase) -> Option<FileModel> {
     let z = &c.zone;
-    if z.types.is_empty() || z.types.len() > 255 {
+    if z.types.is_empty() || z.types.len() > 256 {
         return None;
     }
     let ent = &c.ent;
@@ -316,6 +318,24 @@ fn corrupt(fm: &FileModel, d: &Defect) -> Option<(Vec<u8>, bool)> {
             f2.footer = text.clone();
             let must = tzstr::parse(tzstr::trim_ascii_ws(text), fm.version == 3).is_err() && !tzstr::trim_ascii_ws(text).is_empty();
             Some((tzif::write(&f2), must))
+        }
+        Defect::DecoyInconsistent { kind } => {
+            fm.v2.as_ref()?;
+            let mut f2 = fm.clone();
+            let n = f2.v1.ttinfos.len();
+            match kind % 4 {
+                0 => f2.v1.isut = vec![0; n + 1],
+                1 => f2.v1.isstd = vec![0; n + 1],
+                2 => {
+                    f2.v1.ttinfos.clear();
+                    f2.v1.times.clear();
+                    f2.v1.type_idx.clear();
+                    f2.v1.isut.clear();
+                    f2.v1.isstd.clear();
+                }
+                _ => f2.v1.chars.clear(),
+            }
+            Some((tzif::write(&f2), true))
         }
         Defect::Byte { at, value } => {
             let i = idx(*at, b.len());
@@ -541,6 +561,7 @@ pub fn arb_defect() -> SBoxedStrategy<Defect> {
         3 => (any::<bool>(), 0u8..6, prop_oneof![Just(0u32), Just(1u32), 0u32..8, Just(u32::MAX), Just(1u32 << 31), Just(65536u32)]).prop_map(|(second, field, value)| Defect::Count { second, field, value }),
         3 => any::<u32>().prop_map(|at| Defect::Truncate { at }),
         1 => any::<u8>().prop_map(|n| Defect::Trailing { n }),
+        1 => any::<u8>().prop_map(|kind| Defect::DecoyInconsistent { kind }),
     ];
     let body = prop_oneof![
         1 => (any::<u32>(), 2u8..=255).prop_map(|(k, value)| Defect::IsDst { k, value }),
@@ -595,6 +616,27 @@ pub fn run(ctx: &Ctx) -> Outcome {
                     check_enum("bytes", &pre, st, |b, st| check_bytes(b, false, None, st).map_err(|m| format!("{ps} truncated to {n} bytes: {m}")))?;
                     st.nontrivial_exact(1);
                 }
+            }
+        }
+        Ok(())
+    });
+    out.absorb_all(rs);
+    if out.failure.is_some() {
+        return out;
+    }
+    // the full one-byte index space: 255 and 256 local time types, transitions pointing at the last ones
+    let rs = par_shards(1, |_, st| {
+        for n in [255usize, 256] {
+            let names = ["AAA", "BBBB", "CC-03", "+0530"];
+            let types: Vec<MLtt> = (0..n).map(|k| MLtt::new(k as i32 * 60 - 7680, k % 2 == 1, Some(names[k % 4]))).collect();
+            let trans: Vec<(i64, usize)> = (0..n).map(|k| (k as i64 * 1000, n - 1 - (k % 3))).collect();
+            for version in [1u8, 2, 3] {
+                let c = FileCase { zone: MZone { trans: trans.clone(), types: types.clone(), leaps: vec![], trailer: MTrailer::None }, version, ent: vec![u32::MAX; 8], defect: Defect::None };
+                if file_of(&c).is_none() {
+                    return Err(Failure::new("infra", "the 255/256-type family is not representable by the writer", serde_json::json!(n)));
+                }
+                check_enum("file", &c, st, check_file)?;
+                st.class("files_with_255_or_256_types");
             }
         }
         Ok(())
